@@ -190,8 +190,10 @@ def hist_impl(c):
     return " ".join(out)
 
 
-ALPHA = ["a", "b", "Z", " ", "\t", "é", "ÿ", "€", "ж", "漢", "\n", "\n", "\n"]
-ALPHA_W = [4, 2, 1, 2, 1, 2, 1, 2, 1, 1, 4, 2, 1]
+# \u2028 \u2029 \x85 \x0b \x0c \x1c: characters str.splitlines() treats as line boundaries although they are
+# not line separators of the file (a loader built on splitlines() would cut lines there)
+ALPHA = ["a", "b", "Z", " ", "\t", "é", "ÿ", "€", "ж", "漢", "\n", "\n", "\n", "\u2028", "\u2029", "\x85", "\x0b", "\x0c", "\x1c"]
+ALPHA_W = [4, 2, 1, 2, 1, 2, 1, 2, 1, 1, 4, 2, 1, 1, 1, 1, 1, 1, 1]
 
 
 def gen_text(rng, extra=()):
